@@ -306,28 +306,51 @@ def l3_records(pa, rng, count, backends, modes, violations, shapes=SHAPES_SEARCH
         recs += run_modes(pa, c, d, D, de_int, R_SCALE, tol=8, band=16, backends=backends, modes=modes,
                           search=search and c.num_units <= 12, cands=cands, recompute=recompute, rng=rng,
                           violations=violations, meta=meta)
-        if rng.random() < 0.3 and c.num_units >= 2:
-            # the SAME continuum object edited in place without changing its unit count (a unit moved and relabelled), then
-            # everything recomputed with the SAME dissimilarity object: nothing may be remembered from before the edit
+        if rng.random() < 0.35 and c.num_units >= 2:
+            # the SAME continuum object edited in place, then everything recomputed with the SAME dissimilarity object: nothing
+            # may be remembered from before the edit.  Edits: a unit moved and relabelled (remove + add, unit count unchanged);
+            # a unit removed and nothing added (the count and the mean number of units per annotator change); a unit added;
+            # a new annotator without any unit registered (every unitary alignment gets one more, empty, slot); another
+            # continuum merged in place
             from pyannote.core import Segment
             a, u = rng.choice([(a, u) for a, u in c])
             labs_in_use = [x.annotation for _, x in c]
-            new = (Segment(u.segment.start + rng.choice([1, 2.5, 7]), u.segment.end + rng.choice([7, 9.5])), rng.choice(labs_in_use))
-            if rng.random() < 0.4 and len(c.annotators) < 5:
-                # ... or a new annotator without any unit is registered (every unitary alignment gets one more, empty, slot)
-                c.add_annotator(rng.choice(["aa_new", "zz_new", "an1b"]))
-                new = None
-            if new is None or not any(x.segment == new[0] and x.annotation == new[1] for x in c[a]):
-                if new is not None:
+            edit = rng.choice(["move", "move", "remove", "remove", "add", "annotator", "merge"])
+            if edit == "annotator" and len(c.annotators) >= 5:
+                edit = "remove"
+            try:
+                if edit == "move":
+                    new = (Segment(u.segment.start + rng.choice([1, 2.5, 7]), u.segment.end + rng.choice([7, 9.5])), rng.choice(labs_in_use))
+                    if any(x.segment == new[0] and x.annotation == new[1] for x in c[a]):
+                        continue
                     c.remove(a, u)
                     c.add(a, new[0], new[1])
-                try:
-                    D2, de2 = ar.observe_table(pa, c, d, R_SCALE)
-                except Exception:
-                    continue
-                recs += run_modes(pa, c, d, D2, de2, R_SCALE, tol=8, band=16, backends=backends[:1], modes=modes,
-                                  search=search and c.num_units <= 12, cands=cands, recompute=recompute, rng=rng, violations=violations,
-                                  meta=dict(meta, edited_in_place=True, continuum=continuum_summary(c)))
+                elif edit == "remove":
+                    c.remove(a, u)
+                    if c.num_units >= 3 and rng.random() < 0.4:
+                        a2, u2 = rng.choice([(x, y) for x, y in c])
+                        c.remove(a2, u2)
+                elif edit == "add":
+                    c.add(a, Segment(u.segment.start + rng.choice([0.5, 3]), u.segment.end + rng.choice([4, 11.5])), rng.choice(labs_in_use))
+                elif edit == "annotator":
+                    c.add_annotator(rng.choice(["aa_new", "zz_new", "an1b"]))
+                else:
+                    other = pa.Continuum()
+                    other.add(a, Segment(u.segment.start + 1.5, u.segment.end + 2.5), rng.choice(labs_in_use))
+                    if len(c.annotators) < 5 and rng.random() < 0.5:
+                        other.add("zz_merged", Segment(u.segment.start, u.segment.end + 1.0), rng.choice(labs_in_use))
+                    c.merge(other, in_place=True)
+            except Exception as ex:
+                raise MachineryError(f"in-place edit {edit} failed: {ex!r}")
+            if c.num_units < 1:
+                continue
+            try:
+                D2, de2 = ar.observe_table(pa, c, d, R_SCALE)
+            except Exception:
+                continue
+            recs += run_modes(pa, c, d, D2, de2, R_SCALE, tol=8, band=16, backends=backends[:1], modes=modes,
+                              search=search and c.num_units <= 12, cands=cands, recompute=recompute, rng=rng, violations=violations,
+                              meta=dict(meta, edited_in_place=edit, continuum=continuum_summary(c)))
     return recs
 
 
